@@ -286,7 +286,9 @@ var hostileTokens = []string{
 	"(", ")", "((", "))", "()", "[", "]", "<", ">", "{", "}", "{}", "{5}", "{0}", "{5+}", "{-1}", "{a}", "\"", "\"\"", "\"\\", "\\", "\\\"", "*", "%", "+", ":", ",", ".",
 	"NIL", "nil", "DONE", "done", "NOT", "OR", "ALL", "UID", "CHARSET", "BODY[", "BODY[]", "BODY.PEEK[", "BODY[1.2.3", "BODY[]<0.", "<0.0>", "<1>", "1:*", "*:*", "1:", ":1", "1,", ",1", "1,,2",
 	"FLAGS", "(FLAGS", "\\Seen", "\\", "\\*", "+FLAGS", "-FLAGS.SILENT", "INBOX", "inbox", "\"INBOX\"", "~", "&", "&-", "&AOk-", "=", "==",
-	"\x00", "\x01", "\x07", "\x08", "\t", "\x0b", "\x0c", "\x1b", "\x7f", "\x80", "\xff", "\xc3\xa9", "\xe2\x98\x83", "\xfe\xff",
+	"\x00", "\x01", "\x07", "\x08", "\t", "\x0b", "\x0c", "\x1b", "\x1c", "\x1d", "\x1e", "\x1f", "\x7f", "\x80", "\xff", "\xc3\xa9", "\xe2\x98\x83", "\xfe\xff",
+	// charsets: supported, registered with IANA but not implemented, unknown
+	"UTF-8", "US-ASCII", "UTF-7", "utf-7", "UTF-32", "ISO-2022-KR", "ISO-10646-UCS-2", "BOCU-1", "x-unknown",
 	"", " ", "  ", "0", "00", "1", "4294967295", "4294967296", "9223372036854775807", "9223372036854775808", "18446744073709551615", "18446744073709551616", "18446744073709551617",
 	"1-Jan-2020", "\"1-Jan-2020\"", "32-Jan-2020", "1-Foo-2020", "\" 1-Jan-2020 00:00:00 +0000\"", "\"01-Jan-2020 25:61:61 +9999\"",
 	"LOGIN", "STARTTLS", "IDLE", "LOGOUT", "APPEND", "FETCH", "SEARCH", "STORE",
